@@ -500,6 +500,9 @@ DEFS = {
                'd4': ('binary2', ['d2', 'd3'])},
     # ONE link object (s = x + y) re-used as the left operand of several wider expressions, as in
     # `s = d.id['x'] + d.id['y']; d['a'] = s * 2; d['b'] = s / d.id['d1']`: each expression depends on its own inputs only
+    # the two stored attributes carry the SAME label (legal: identity is the ComponentID, not the label); a text
+    # expression refers to both
+    'samelabel': {'d1': ('parsed', ['x', 'y']), 'd2': ('binary', ['y', 'p1']), 'd3': ('parsed', ['d2', 'x'])},
     'shared': {'d1': ('binary', ['x', 'p1']), 'd2': ('sh_const', ['x', 'y']), 'd3': ('sh_div', ['x', 'y', 'd1']),
                'd4': ('sh_sub', ['x', 'y', 'd2'])},
 }
@@ -530,13 +533,14 @@ class Scenario(object):
         shape = (2, 3)
         w.stored = {'x': (0.5 + 0.75 * np.arange(6)).reshape(shape), 'y': (np.arange(6) * 3 % 5 + 1).reshape(shape)}
         w.data = Data(label='H')
-        w.data.add_component(w.stored['x'].copy(), 'x')
-        w.data.add_component(w.stored['y'].copy(), 'y')
-        w.cids = {'x': w.data.id['x'], 'y': w.data.id['y'],
+        ylabel = 'x' if self.variant == 'samelabel' else 'y'
+        cx = w.data.add_component(w.stored['x'].copy(), 'x')
+        cy = w.data.add_component(w.stored['y'].copy(), ylabel)
+        w.cids = {'x': cx, 'y': cy,
                   'p0': w.data.pixel_component_ids[0], 'p1': w.data.pixel_component_ids[1]}
         # model: ordered logical names, generation counters for labels
         w.order = ['p0', 'p1', 'x', 'y']
-        w.labels = {'p0': w.cids['p0'].label, 'p1': w.cids['p1'].label, 'x': 'x', 'y': 'y'}
+        w.labels = {'p0': w.cids['p0'].label, 'p1': w.cids['p1'].label, 'x': 'x', 'y': ylabel}
         w.uids = 0
         return w
 
@@ -630,8 +634,8 @@ class Scenario(object):
                     data.add_component_link(ComponentLink([a, b], cid, using=h_mul))
                 elif kind == 'parsed':
                     cid = ComponentID(label)
-                    refs = dict((c.label, c) for c in data.components)
-                    cmd = '{%s} - {%s}' % (a.label, b.label)
+                    refs = {'first': a, 'second': b}     # (keys are the author's; labels may coincide)
+                    cmd = '{first} - {second}'
                     data.add_component_link(ParsedComponentLink(cid, ParsedCommand(cmd, refs)))
                 else:
                     link = a / 2 + b
@@ -733,10 +737,12 @@ def h_tiers(tier):
     if tier == 'quick':
         return [('plain', Scenario('plain', uid_budget=2), 5), ('parsed', Scenario('parsed', uid_budget=2), 5),
                 ('repeat', Scenario('repeat', uid_budget=3), 5),
-                ('shared', Scenario('shared', uid_budget=0, reorders=()), 6)]
+                ('shared', Scenario('shared', uid_budget=0, reorders=()), 6),
+                ('samelabel', Scenario('samelabel', uid_budget=1, reorders=()), 5)]
     return [('plain', Scenario('plain', uid_budget=2), 7), ('parsed', Scenario('parsed', uid_budget=2), 7),
             ('repeat', Scenario('repeat', uid_budget=3), 7),
-            ('shared', Scenario('shared', uid_budget=0, reorders=('rev',)), 8)]
+            ('shared', Scenario('shared', uid_budget=0, reorders=('rev',)), 8),
+            ('samelabel', Scenario('samelabel', uid_budget=2, reorders=('rev',)), 7)]
 
 
 def _scn_for(label):
